@@ -1,5 +1,6 @@
 import LivesimVerif.Model.Audio
 import LivesimVerif.Props.C01
+import LivesimVerif.Props.C02
 /-!
 # C03 — Audio is re-segmented to follow video boundaries without loss or duplication
 
@@ -99,6 +100,60 @@ theorem c03_abut (a : Asset) (ref : Rep) (h : Contig ref) (hc : Closes a ref) (f
 theorem c03_count (r₁ r₂ refT fd audT : Nat) (hT : 0 < refT) (hf : 0 < fd) :
     fd ∣ audioTimeFromRef r₂ refT fd audT - audioTimeFromRef r₁ refT fd audT :=
   Nat.dvd_sub (c03_ceil r₂ refT fd audT hT hf).1 (c03_ceil r₁ refT fd audT hT hf).1
+
+
+/-! ## The audio SegmentTimeline of the MPD -/
+
+/-- a `(t, d)` list in which every entry starts where the previous one ended, the first one at `t` -/
+def ContigFrom : Nat → List (Nat × Nat) → Prop
+  | _, [] => True
+  | t, e :: rest => e.1 = t ∧ ContigFrom (e.1 + e.2) rest
+
+theorem listFrom_contigFrom (r : Rep) (first count t : Nat) : ContigFrom t (listFrom r first count t) := by
+  induction count generalizing first t with
+  | zero => simp [listFrom, ContigFrom]
+  | succ c ih => simp only [listFrom, ContigFrom, true_and]; exact ih _ _
+
+theorem fromBounds_map (A : Nat → Nat) (t0 : Nat) (es : List (Nat × Nat)) (hc : ContigFrom t0 es) :
+    fromBounds ((t0 :: es.map (fun e => e.1 + e.2)).map A) = es.map (fun e => (A e.1, A (e.1 + e.2) - A e.1)) := by
+  induction es generalizing t0 with
+  | nil => simp [fromBounds]
+  | cons e rest ih =>
+    obtain ⟨h1, h2⟩ := hc
+    have := ih (e.1 + e.2) h2
+    simp only [List.map_cons] at this ⊢
+    subst h1
+    simp only [fromBounds, this]
+
+/-- **The audio SegmentTimeline lists exactly the re-segmented audio segments.**  For every contiguous video timeline
+(which `generateTimelineEntries` always produces, `listFrom_contigFrom`) the audio timeline derived from it has one
+entry per video entry, starting at the image of the video start and lasting to the image of the video end — the tfdt
+and duration the segment handler gives that audio segment (`audioRecipe`). -/
+theorem c03_mpd_timeline (refSE : SegEntries) (r : Rep) (t0 d0 : Nat) (rest : List (Nat × Nat))
+    (hs : 0 ≤ refSE.startNr) (he : refSE.entries = (t0, d0) :: rest) (hc : ContigFrom t0 refSE.entries) :
+    (genTimelineFromRef refSE r).entries =
+      refSE.entries.map (fun e => (audioTimeFromRef e.1 refSE.T r.sampleDur r.T,
+        audioTimeFromRef (e.1 + e.2) refSE.T r.sampleDur r.T - audioTimeFromRef e.1 refSE.T r.sampleDur r.T)) := by
+  unfold genTimelineFromRef
+  rw [if_neg (by omega)]
+  simp only [he]
+  rw [he] at hc
+  exact fromBounds_map (fun x => audioTimeFromRef x refSE.T r.sampleDur r.T) t0 ((t0, d0) :: rest) hc
+
+/-- … and the video timeline being the segments `first … first+count−1` (C02), the audio timeline is the list of
+`(image of S k, image of E k − image of S k)` over the same `k`, across loop wraps. -/
+theorem c03_mpd_timeline_segments (a : Asset) (ref : Rep) (h : Contig ref) (hc : Closes a ref) (r : Rep)
+    (first count : Nat) (se : SegEntries) (hs : 0 ≤ se.startNr) (hT : se.T = ref.T)
+    (he : se.entries = listFrom ref first (count + 1) (S a ref first)) :
+    (genTimelineFromRef se r).entries = (List.range' first (count + 1)).map (fun k =>
+      (audioTimeFromRef (S a ref k) ref.T r.sampleDur r.T,
+       audioTimeFromRef (S a ref k + segDur ref k) ref.T r.sampleDur r.T - audioTimeFromRef (S a ref k) ref.T r.sampleDur r.T)) := by
+  have hl : se.entries = (S a ref first, (ref.seg (first % ref.N)).stop - (ref.seg (first % ref.N)).start) ::
+      listFrom ref (first + 1) count (S a ref first + ((ref.seg (first % ref.N)).stop - (ref.seg (first % ref.N)).start)) := by
+    rw [he]; rfl
+  rw [c03_mpd_timeline se r _ _ _ hs hl (by rw [he]; exact listFrom_contigFrom _ _ _ _), he,
+    c02_entries_are_segments a ref h hc, hT, List.map_map]
+  rfl
 
 /-- non-vacuity: video boundary 2 s at 90 kHz → AAC frame grid at 48 kHz: 96256 = 94·1024 (2.0053 s) -/
 example : audioTimeFromRef 180000 90000 1024 48000 = 96256 := by decide
